@@ -5,6 +5,8 @@
  *                                           lyd_print_mem(LYD_LYB, LYD_PRINT_WITHSIBLINGS | wd)
  *                                             -> ok <dump of the built tree, hex> <LYB bytes, hex> <lyd_lyb_data_length>
  *                                             |  err Schema | Build | Print<LY_ERR>
+ *   printm <dsl> <yang-hex> <wd> <dump>     the same for a CANONICAL dump (as `print` returns it) whose metadata tokens `module:name=hex` are attached
+ *                                           with lyd_new_meta first  -> ok <dump> <LYB> <length> | err Build | Meta<LY_ERR> | NotCanonical | Print<LY_ERR>
  *   parse <dsl> <yang-hex> <lyb-hex>        lyd_parse_data_mem(LYD_LYB, LYD_PARSE_ONLY | LYD_PARSE_STRICT | LYD_PARSE_ORDERED)
  *                                             -> ok <dump, hex> | err Parse<LY_ERR>
  *   metaskip <value-hex>                    finding F331: context A has modules `ann` (md:annotation hint, string) and `dat`, context B only `dat`;
@@ -63,6 +65,71 @@ op_print(const char *id, const char *key, const char *yanghex, const char *wd, c
     fprintf(stdout, " %d", lyd_lyb_data_length(mem));
     vp_end();
 cleanup:
+    ly_out_free(out, NULL, 0);
+    free(mem);
+    free(b.s);
+    free(text);
+    lyd_free_all(forest);
+}
+
+static int
+collect(struct lyd_node *first, struct lyd_node **arr, int k, int max)
+{
+    struct lyd_node *n, *c;
+
+    for (n = first; n; n = n->next) {
+        if (k < max) arr[k] = n;
+        k++;
+        c = lyd_child(n);
+        if (c) k = collect(c, arr, k, max);
+    }
+    return k;
+}
+
+/* print of a tree WITH the metadata of the dump (tokens `module:name=hex`); the dump must be canonical (as returned by `print`) */
+static void
+op_printm(const char *id, const char *key, const char *yanghex, const char *wd, const char *dumphex)
+{
+    const struct tp_schema *s = get_schema(key, yanghex);
+    char *text = NULL, *mem = NULL;
+    struct lyd_node *forest = NULL, *arr[TP_MAXNODES * 8];
+    struct tp_tok *t = NULL;
+    struct tp_buf b = {0};
+    struct ly_out *out = NULL;
+    int n = 0, k, i, j;
+    LY_ERR r = LY_SUCCESS;
+
+    if (!s) { vp_reply(id, "err Schema"); return; }
+    text = vp_unhex(dumphex, NULL);
+    if (!text || tp_load(s, text, 1, &forest)) { vp_reply(id, "err Build"); goto cleanup; }
+    n = tp_parse(s, text, &t);
+    k = collect(forest, arr, 0, TP_MAXNODES * 8);
+    if (n < 0 || n != k || k > TP_MAXNODES * 8) { vp_reply(id, "err Build"); goto cleanup; }
+    for (i = 0; i < n && !r; i++) {
+        for (j = 0; j < t[i].nmeta && !r; j++) {
+            char *eq = strchr(t[i].meta[j], '='), *val;
+
+            if (!eq) { r = LY_EINVAL; break; }
+            *eq = 0;
+            val = vp_unhex(eq + 1, NULL);
+            r = val ? lyd_new_meta(s->ctx, arr[i], NULL, t[i].meta[j], val, 0, NULL) : LY_EINVAL;
+            *eq = '=';
+            free(val);
+        }
+    }
+    if (r) { vp_reply(id, "err Meta%s", tp_errname(r)); goto cleanup; }
+    tp_dump(s, forest, &b);
+    if (strcmp(b.s ? b.s : "", text)) { vp_reply(id, "err NotCanonical"); goto cleanup; }
+    if (ly_out_new_memory(&mem, 0, &out)) { vp_reply(id, "err Out"); goto cleanup; }
+    r = lyd_print_all(out, forest, LYD_LYB, wd_flag(wd));
+    if (r) { vp_reply(id, "err Print%s", tp_errname(r)); goto cleanup; }
+    vp_begin(id, "ok");
+    vp_field_hex(b.s, b.len);
+    vp_field_hex(mem, ly_out_printed(out));
+    fprintf(stdout, " %d", lyd_lyb_data_length(mem));
+    vp_end();
+cleanup:
+    if (t) tp_toks_free(t, n);
     ly_out_free(out, NULL, 0);
     free(mem);
     free(b.s);
@@ -147,6 +214,8 @@ main(void)
         if (r.ntok < 3) { vp_reply(r.ntok ? id : "?", "err BadLine"); continue; }
         if (!strcmp(op, "print") && r.ntok == 7) {
             op_print(id, r.tok[3], r.tok[4], r.tok[5], r.tok[6]);
+        } else if (!strcmp(op, "printm") && r.ntok == 7) {
+            op_printm(id, r.tok[3], r.tok[4], r.tok[5], r.tok[6]);
         } else if (!strcmp(op, "parse") && r.ntok == 6) {
             op_parse(id, r.tok[3], r.tok[4], r.tok[5]);
         } else if (!strcmp(op, "metaskip") && r.ntok == 4) {
